@@ -218,17 +218,30 @@ def _run(ix, R):
         fl = mkflow(ix, site)
         pe = param_env(fl, f, ['rem'])
         rets = fl.of('return')
-        single = [r for r in rets if r.guards and r.guards[-1].positive and not r.guards[-1].early]
         why = []
-        if len(single) != 1:
-            why.append('no separate return for a single fill gas: the general formula divides by 1 + sum(ratio) while '
+        # by scenario: what is returned when there is exactly one fill gas
+        from sa.helpers import resolve_guards, has_guard
+        one_gas = fl.tab.canon_cond(spec(fl, 'len(self._fill_gases) == 1'))
+        many = fl.tab.canon_cond(spec(fl, 'len(self._fill_gases) > 1'))
+
+        def decide1(c):
+            cc, fc = fl.tab.canon_cond(c)
+            if fl.tab.equal(cc, one_gas[0]):
+                return fc == one_gas[1]
+            if fl.tab.equal(cc, many[0]):
+                return fc != many[1]
+            return None
+        v1 = resolve_guards(fl, the_return(fl).value, decide1)
+        if not fl.tab.equal(unmut(fl, v1), fl.tab.atom('tuple', (pe['rem'],))):
+            if has_guard(v1) or v1.mentions(lambda a: a.head in ('phi', 'mutated')):
+                raise AnalysisError('what a single fill gas receives is not settled: %s' % fmt(fl, v1)[:160])
+            why.append('with a single fill gas the result is %s: the general formula divides by 1 + sum(ratio) while '
                        'zip(fill_gases[1:], ratio) pairs no ratio at all, and the constructor accepts (and defaults to) '
-                       'a non-empty ratio with one fill gas, so the fills no longer add up to the remainder')
-        else:
-            s = single[0]
-            if not fl.tab.equal(s.guards[-1].rf, spec(fl, 'len(self._fill_gases) == 1')) or \
-                    not fl.tab.equal(s.value, fl.tab.atom('tuple', (pe['rem'],))):
-                why.append('single fill gas: %s under %s' % (fmt(fl, s.value), s.guards[-1].text()))
+                       'a non-empty ratio with one fill gas, so the fills no longer add up to the remainder' % fmt(fl, v1)[:120])
+        # (decided on its own, before the general formula is looked at: the two do not depend on each other)
+        R.check('2.fill.single', 'ALG', site, 'a single fill gas receives the whole remainder, whatever ratios were given',
+                not why, key='; '.join(w[:80] for w in why), detail='; '.join(why), loc=f.loc())
+        why = []
         apps = calls(fl, 'append')
         oth = [e for e in apps if e.loops]
         want_main = spec(fl, 'rem/(1 + sum(self._fill_ratio, axis=0))', pe)
